@@ -46,7 +46,7 @@ def build_client(b, root, lv, lk, fn, sto, cp, n, off):
 
 
 def run(prop, tier, seed, workdir):
-    res = Result("erase")
+    res = Result("erase", level="exploration")
     quick = tier == "quick"
     levels = ["O0", "O2", "O3"] if quick else ["O0", "O1", "O2", "O3", "Os"]
     links = ["static", "lto"] if quick else ["static", "lto", "shared"]
@@ -131,7 +131,7 @@ def run(prop, tier, seed, workdir):
 
 
 def replay(rp, workdir):
-    res = Result("erase-replay")
+    res = Result("erase-replay", level="exploration")
     key = tuple(rp["key"])
     flavours = ["slack"] + (["lto_" + key[0]] if key[1] == "lto" else []) + (["so"] if key[1] == "shared" else [])
     b = build.ensure(flavours, [])
